@@ -233,7 +233,7 @@ def run_case(case, tier):
         opts = opts + ["-p", util.write_cfg({"remove_penalised_group": 0})]
         classes.append("penalised-groups-kept")
     text = pdbio.dump(recs)
-    run = obs.run_single(text, opts)
+    run = obs.run_single(text, opts, keep_mol=(case["kind"] == "models"))
     counts["pipeline_runs"] = 1
     desc.update({"optset": optset, "atoms": len(pdbio.atoms(recs)), "exc": run.exc})
     if run.exc:
@@ -244,6 +244,9 @@ def run_case(case, tier):
         cen = census_mon.check(run, text, viol, counts, classes, chains=chains,
                                titrate_only=set(tlist) if tlist is not None else None,
                                allow_topup_extras=(case["kind"] == "models"), remove_penalised=not keep_pen)
+    if run.mol is not None and run.rec and len(run.rec["names"]) > 1 and cen is not None:
+        census_mon.check_conformation_reports(run, cen, viol, counts, classes, remove_penalised=not keep_pen, text=text, chains=chains)
+    run.mol = None
     if desc.get("declared") and run.rec:
         conf = run.rec["confs"][run.rec["names"][0]]
         got = {g["aid"][5]: g["type"] for g in conf["groups"] if g["aid"][2] == 900 and g["aid"][1] == "L"}
